@@ -328,6 +328,10 @@ pub fn session_for(identity: &str) -> SessionData {
     s
 }
 
+/// When set (by the C07 tracer in its child process) the provider raises SIGSTOP just before its
+/// answer becomes ready: the start marker of the traced window.
+pub static TRACE_MARK: std::sync::atomic::AtomicBool = std::sync::atomic::AtomicBool::new(false);
+
 pub struct AnswerFuture {
     pending: u32,
     answer: Option<Result<GetSigningKeyResponse, BoxError>>,
@@ -340,6 +344,9 @@ impl Future for AnswerFuture {
             self.pending -= 1;
             cx.waker().wake_by_ref();
             return Poll::Pending;
+        }
+        if TRACE_MARK.load(std::sync::atomic::Ordering::SeqCst) {
+            unsafe { libc::raise(libc::SIGSTOP) };
         }
         Poll::Ready(self.answer.take().expect("polled after completion"))
     }
@@ -460,6 +467,9 @@ pub struct ValOut {
     pub calls: Vec<CallRec>,
     pub called_without_ready: u64,
     pub queue_left: usize,
+    /// set when the growable requirements container, after the case's operation history, does not hold
+    /// the lists the reference semantics predicts
+    pub reqs_mismatch: Option<String>,
 }
 
 pub fn build_request(c: &Case) -> Option<Request<Bytes>> {
@@ -496,8 +506,31 @@ pub fn validate_with(c: &Case, req: Request<Bytes>, prov: &mut Provider) -> ValO
     let now = mk_time(c.now.0, c.now.1).expect("server time in chrono range");
     let opts = SignatureOptions { s3: c.s3, url_encode_form: c.fold };
     let calls_before = prov.0.lock().unwrap().calls.len();
+    let mut reqs_mismatch: Option<String> = None;
     let r = catch_unwind(AssertUnwindSafe(|| {
-        if c.vec_reqs {
+        if c.vec_reqs && !c.req_ops.is_empty() {
+            use scratchstack_aws_signature::SignedHeaderRequirements;
+            let mut reqs = VecSignedHeaderRequirements::default();
+            for (op, name) in &c.req_ops {
+                match op {
+                    'A' => reqs.add_always_present(name),
+                    'I' => reqs.add_if_in_request(name),
+                    'P' => reqs.add_prefix(name),
+                    'a' => reqs.remove_always_present(name),
+                    'i' => reqs.remove_if_in_request(name),
+                    _ => reqs.remove_prefix(name),
+                }
+            }
+            let got = (
+                reqs.always_present().iter().map(|x| x.to_string()).collect::<Vec<_>>(),
+                reqs.if_in_request().iter().map(|x| x.to_string()).collect::<Vec<_>>(),
+                reqs.prefixes().iter().map(|x| x.to_string()).collect::<Vec<_>>(),
+            );
+            if got != (c.always.clone(), c.ifreq.clone(), c.prefixes.clone()) {
+                reqs_mismatch = Some(format!("{:?}", got));
+            }
+            block_on(sigv4_validate_request(req, &c.region, &c.service, prov, now, &reqs, opts)).0
+        } else if c.vec_reqs {
             // built through the mutating API, one name at a time
             let mut reqs = VecSignedHeaderRequirements::default();
             for a in &c.always {
@@ -530,6 +563,7 @@ pub fn validate_with(c: &Case, req: Request<Bytes>, prov: &mut Provider) -> ValO
         calls,
         called_without_ready: st.called_without_ready,
         queue_left: st.queue.len(),
+        reqs_mismatch,
     };
     match r {
         Err(p) => out.class = format!("PANIC {}", panic_msg(p).replace(' ', "_")),
